@@ -214,3 +214,90 @@ Example C19_morph_nonvacuous :
                          (Some 20%N) true [(SMorphWeight, 1%N); (SMorphTarget, 2%N)] [20%N; 21%N] in
   load_morph d = Ok (20%N, [(21%N, 4%Z); (20%N, (-8)%Z); (21%N, 12%Z)]).
 Proof. vm_compute. reflexivity. Qed.
+
+(* ---------------------------------------------------------------- the XML navigation *)
+From PC Require Import Base.Atoms Base.Xml Model.SkinXml Proofs.SkinXml.
+
+(* Skin.load on a well-formed <skin> element (every child the loader looks up - in the document
+   namespace - is present, references start with '#', numbers are numbers, offsets are integers,
+   the controller has an id) is the numeric decoding of the element's declarative reading *)
+Theorem C19_xml_skin_load_is_read : forall ns nums geoms sc node ctrl,
+  wf_skin ns nums geoms sc node ctrl ->
+  load_skin_x ns nums geoms sc node ctrl = load_skin (read_skin ns nums sc node).
+Proof. exact load_skin_x_read. Qed.
+Print Assumptions C19_xml_skin_load_is_read.
+
+(* without any well-formedness assumption: a <skin> that loads IS the decoding of its reading
+   (so every theorem above about load_skin applies to what was loaded from the element) *)
+Theorem C19_xml_skin_loaded_is_read : forall ns nums geoms sc node ctrl v,
+  load_skin_x ns nums geoms sc node ctrl = Ok v -> load_skin (read_skin ns nums sc node) = Ok v.
+Proof. exact load_skin_x_ok. Qed.
+Print Assumptions C19_xml_skin_loaded_is_read.
+
+Theorem C19_xml_morph_load_is_read : forall ns geoms sc node ctrl,
+  wf_morph ns geoms sc node -> xattr a_id ctrl <> None ->
+  load_morph_x ns geoms sc node ctrl = load_morph (read_morph ns geoms sc node).
+Proof. exact load_morph_x_read. Qed.
+Print Assumptions C19_xml_morph_load_is_read.
+
+(* Controller.load: <skin> is looked up first, then <morph>; the scope is made of the <source>
+   children of that element *)
+Theorem C19_xml_controller_load : forall ns nums geoms ctrl node sc,
+  (find ns a_skin ctrl = Some node ->
+   omapM (load_source ns nums) (controller_sources ns a_skin ctrl) = Ok sc ->
+   wf_skin ns nums geoms sc node ctrl ->
+   load_controller ns nums geoms ctrl =
+   match load_skin (read_skin ns nums sc node) with Ok v => Ok (LSkin v) | Raise e => Raise e end) /\
+  (find ns a_skin ctrl = None -> find ns a_morph ctrl = Some node ->
+   omapM (load_source ns nums) (controller_sources ns a_morph ctrl) = Ok sc ->
+   wf_morph ns geoms sc node -> xattr a_id ctrl <> None ->
+   load_controller ns nums geoms ctrl =
+   match load_morph (read_morph ns geoms sc node) with Ok (b, l) => Ok (LMorph b l) | Raise e => Raise e end).
+Proof. intros. split; [apply load_controller_skin|apply load_controller_morph]. Qed.
+Print Assumptions C19_xml_controller_load.
+
+(* non-vacuity: a small <controller> element (sources in another order than they are used, a
+   decoy <v> in a foreign namespace, JOINT after WEIGHT) is well-formed and loads *)
+Definition ex_ns : atom := a_ns141.
+Definition ex_src (uid : N) (id : atom) (arr : atom) (toks : list tok) (pname : atom) : xml :=
+  El uid ex_ns a_source [(a_id, AStr id)] None
+     [El (uid + 1) ex_ns arr [] (Some toks) [];
+      El (uid + 2) ex_ns a_technique_common [] None
+         [El (uid + 3) ex_ns a_accessor [] None [El (uid + 4) ex_ns a_param [(a_name, AStr pname)] None []]]].
+Definition ex_input (uid : N) (s id : atom) (off : option Z) : xml :=
+  El uid ex_ns a_input ((a_semantic, AStr s) :: (a_source, ARef true id) ::
+                        match off with Some z => [(a_offset, AInt z)] | None => [] end) None [].
+Definition ex_skin_node : xml :=
+  El 10 ex_ns a_skin [(a_source, ARef true 2000%N)] None
+     [ex_src 20 1003%N a_float_array [TNum 0; TInt 1] a_WEIGHT;
+      ex_src 30 1001%N a_Name_array [TWord 1010%N; TWord 1011%N] a_JOINT;
+      ex_src 40 1002%N a_float_array (map TInt (identity16 ++ identity16)) a_TRANSFORM;
+      El 50 ex_ns a_joints [] None [ex_input 51 a_INV_BIND_MATRIX 1002%N None; ex_input 52 a_JOINT 1001%N None];
+      El 60 ex_ns a_vertex_weights [] None
+         [El 61 1999%N a_v [] (Some [TInt 9; TInt 9]) [];
+          ex_input 62 a_WEIGHT 1003%N (Some 0%Z); ex_input 63 a_JOINT 1001%N (Some 1%Z);
+          El 64 ex_ns a_vcount [] (Some [TInt 2; TInt 0; TInt 1]) [];
+          El 65 ex_ns a_v [] (Some [TInt 1; TInt 1; TInt 0; TInt (-1); TInt 1; TInt 0]) []]].
+Definition ex_ctrl : xml := El 1 ex_ns a_controller [(a_id, AStr 1500%N)] None [ex_skin_node].
+
+Example C19_xml_nonvacuous :
+  exists sc,
+    omapM (load_source ex_ns [4%Z]) (controller_sources ex_ns a_skin ex_ctrl) = Ok sc /\
+    wf_skin ex_ns [4%Z] [2000%N] sc ex_skin_node ex_ctrl /\
+    load_controller ex_ns [4%Z] [2000%N] ex_ctrl =
+    Ok (LSkin (mk_skin_view 2 [[[1;1]; [0;-1]]; []; [[1;0]]]%Z [[1;-1]; []; [0]]%Z [[1;0]; []; [1]]%Z
+                 [(1010%N, identity16); (1011%N, identity16)] identity16)).
+Proof.
+  eexists. split; [vm_compute; reflexivity|]. split; [|vm_compute; reflexivity].
+  constructor.
+  - vm_compute. lia.
+  - exists 2000%N. split; reflexivity.
+  - intros b H. vm_compute in H. discriminate.
+  - split; [vm_compute; lia|]. repeat constructor; eexists; reflexivity.
+  - do 3 eexists. repeat split; try (vm_compute; reflexivity).
+    + repeat constructor; vm_compute; discriminate.
+    + repeat constructor; eexists; split; try reflexivity; lia.
+    + repeat constructor; eexists; reflexivity.
+    + repeat constructor; eexists; reflexivity.
+  - vm_compute. discriminate.
+Qed.
